@@ -1,4 +1,6 @@
 import LexgenModel.Proofs.NextMore
+import LexgenModel.Proofs.EndToEnd
+import LexgenModel.Proofs.Totality
 /-!
 # C15 — A cloned lexer continues identically and independently
 
@@ -12,5 +14,41 @@ variable {σ τ ε : Type}
 theorem C15_stream_of_state (cfg : Config σ τ ε) (m n : Nat) (st : LState σ) (h : ∀ x ∈ (runN cfg m st).1, x ≠ none) :
     runN cfg (m + n) st = ((runN cfg m st).1 ++ (runN cfg n (runN cfg m st).2).1, (runN cfg n (runN cfg m st).2).2) :=
   runN_add cfg m n st h
+
+/-- For every well-formed definition the model compiles, at every clone point `m` (from a fresh lexer or any state at a lexeme start: after an error,
+after a rule-set switch, after the final `None`), the remaining stream of the original equals the stream of the clone, for any number `n` of further
+calls — no side condition: `next()` never runs out of fuel on a compiled machine. The clone is again at a lexeme start, so the statement applies to
+clones of clones. -/
+theorem C15_clone_compiled (items : LexerDef) (c : Compiled) (h : compileLexer items = .ok c) (hok : DefOK items)
+    (actions : Nat → Action σ τ ε) (width : Nat → Nat) (input : Option (List Nat)) (st : LState σ)
+    (hr : Ready (c.config actions width input) st) (m n : Nat) :
+    runN (c.config actions width input) (m + n) st =
+      ((runN (c.config actions width input) m st).1 ++ (runN (c.config actions width input) n (runN (c.config actions width input) m st).2).1,
+       (runN (c.config actions width input) n (runN (c.config actions width input) m st).2).2) ∧
+    Ready (c.config actions width input) (runN (c.config actions width input) m st).2 := by
+  have hm := compileLexer_machineOK items c h hok actions width input
+  refine ⟨runN_add _ m n st (runN_items_le _ hm st hr m).2.1, ?_⟩
+  clear n
+  induction m generalizing st with
+  | zero => exact hr
+  | succ m ih =>
+    unfold runN
+    obtain ⟨r, hn⟩ := next_total _ hm st hr
+    obtain ⟨item, st'⟩ := r
+    rw [hn]
+    simp only
+    exact ih st' (next_ready _ hm st hr item st' hn)
+
+/-- a clone taken after the final `None` keeps returning `None` (fusedness, C05), like the original -/
+theorem C15_clone_after_none (cfg : Config σ τ ε) (st : LState σ) (h : st.done = true) (n : Nat) :
+    (runN cfg n st).1 = List.replicate n (some none) ∧ (runN cfg n st).2 = st := by
+  induction n with
+  | zero => exact ⟨rfl, rfl⟩
+  | succ n ih =>
+    have hn : next cfg st = some (none, st) := next_done cfg st h
+    unfold runN
+    rw [hn]
+    simp only
+    exact ⟨by rw [ih.1]; rfl, ih.2⟩
 
 end Lexgen
